@@ -457,6 +457,15 @@ theorem tieA_iterator_total (data : List Nat) :
       subst this
       simpa using hr3.symm
 
+/-! non-vacuity: a LinkADRReq, a DevStatusReq and a DlChannelReq cut short — two commands, then ONE `Truncated` error,
+the iterator fused on the unread tail; an unknown CID (0x0B) likewise -/
+example : (genRun [3, 0x51, 7, 0, 0, 6, 0x0A, 1]).map (fun r => (r.1.map wireOf, r.1.map isErr, r.2.1, r.2.2))
+    = some ([[3, 0x51, 7, 0, 0], [6], []], [false, false, true], ⟨[0x0A, 1], true⟩, false) := by decide
+example : (Gen.MacCmdFn.DownlinkMacCommand.parse_one [0x0B, 1, 2]) = some (.Err (.UnknownCid 0x0B)) := by decide
+example : (Gen.MacCmdFn.DownlinkMacCommand.parse_one [0x0A, 1, 2]) = some (.Err (.Truncated 0x0A)) := by decide
+example : (Gen.MacCmdFn.DownlinkMacCommand.parse_one [0x08, 1, 2]) = some (.Ok (.RXTimingSetupReq ⟨[1]⟩) 2) := by decide
+example : (toOpt (run TD varLen [3, 0x51, 7, 0, 0, 6, 0x0A, 1])).map (fun r => (r.items.length, r.hang)) = some (3, false) := by decide
+
 #print axioms tieA_parse_one
 #print axioms tieA_next
 #print axioms tieA_iterator
